@@ -52,12 +52,20 @@ def run(ck: Check) -> int:
     def cases(R_, t):
         out = []
         for _ in range(per):
-            if R_.random() < 0.8:
+            rr = R_.random()
+            if rr < 0.07 and t.names:
+                nm = G.escape(R_.choice(sorted(t.names)))       # the same literal with and without a trailing separator (seeded C12d)
+                pats = R_.choice([[nm, nm + '/'], [nm + '/', nm], nm + '{,/}', nm + '|' + nm + '/'])
+            elif rr < 0.8:
                 pats = K.gen_pattern(R_, G, t)
             else:
                 pats = [K.gen_pattern(R_, G, t) for _ in range(2)]
             text = pats if isinstance(pats, str) else ' '.join(pats)
             fl = _flags(R_, G, t, text)
+            if isinstance(pats, str) and '{,/}' in pats:
+                fl |= G.BRACE
+            if isinstance(pats, str) and pats.endswith('/') and '|' in pats and not pats.startswith(('*', '?', '[')) and rr < 0.07:
+                fl |= G.SPLIT
             excl = [K.gen_pattern(R_, G, t, False)] if R_.random() < 0.1 else None
             for m in MODES:
                 out.append(K.Case(pats, fl, excl, m))
@@ -107,14 +115,15 @@ def run(ck: Check) -> int:
             exists = os.path.lexists(full)
             isdir = os.path.isdir(full)
             if not exists:
-                report(Failing(f'result {r!r} does not exist', c.to_json(G, t), 'lexists', r, 'wcmatch/glob.py:640-645, 741-742'), 'KF-D17')
+                report(Failing(f'result {r!r} does not exist', c.to_json(G, t), 'lexists', r, 'wcmatch/glob.py:640-645, 741-742'),
+                       'KF-D17' if K.d17_shape(G, t, c.pats, c.flags, r) else None)
                 continue
             if simple and r.startswith('/') != pats[0].startswith('/'):
                 found.append(Failing(f'result {r!r}: relative/absolute spelling differs from the pattern', c.to_json(G, t),
                                      pats[0][:1], r[:1], 'wcmatch/glob.py:821-832'))
             if r.endswith('/') and not isdir:
                 report(Failing(f'result {r!r} ends with a separator but is not a directory', c.to_json(G, t), 'directory', r,
-                               'wcmatch/glob.py:741-742, 810'), 'KF-D17')
+                               'wcmatch/glob.py:741-742, 810'), 'KF-D17' if K.d17_shape(G, t, c.pats, c.flags, r) else None)
             if simple and isdir and (pats[0].endswith('/') or c.flags & G.MARK) and not r.endswith('/'):
                 found.append(Failing(f'directory result {r!r} lacks the separator', c.to_json(G, t), r + '/', r,
                                      'wcmatch/glob.py:807-812'))
